@@ -81,14 +81,31 @@ def work(task):
                 errs = errs[:n][:20] + errs[n:n + 25] + errs[-24:]
             elif tier == 'quick':
                 errs = errs[:n][:40] + errs[n:]
-            for tb in range(2 if tier == 'quick' else 5):
-                for zs in (errs if tb == 0 else errs[-24:]):
+            # tb = -1: ONE decoder object decodes a whole sequence (non-trivial face syndromes interleaved with the empty one and with
+            # syndromes of pure X errors, which excite no face); every decode of the sequence is traced and judged like a fresh one
+            reuse_seq = []
+            for zs in rng.sample(errs, min(len(errs), 10)):
+                reuse_seq += [list(zs), [], {'X': rng.sample(range(n), 2)}]
+            shared = Dec(code, em, 0.1)
+            shared._rng = np.random.default_rng(seed)
+            runs = [(-1, zs) for zs in reuse_seq] + [(tb, zs) for tb in range(2 if tier == 'quick' else 5) for zs in (errs if tb == 0 else errs[-24:])]
+            for tb, zs in runs:
+                if True:
                     e = np.zeros(2 * n, dtype='uint8')
+                    if isinstance(zs, dict):
+                        for q in zs['X']:
+                            e[q] = 1
+                        zs = []
                     for q in zs:
                         e[n + q] = 1
                     syn = code.measure_syndrome(e)
-                    d = Dec(code, em, 0.1)
-                    d._rng = np.random.default_rng(seed + tb)
+                    if tb == -1:
+                        d = shared
+                        d.__dict__.pop('flip_edge', None)       # un-wrap: the instance attributes set for the previous decode
+                        d.__dict__.pop('sweep_move', None)
+                    else:
+                        d = Dec(code, em, 0.1)
+                        d._rng = np.random.default_rng(seed + tb)
                     events = []
                     real_flip, real_move = d.flip_edge, d.sweep_move
 
